@@ -1066,12 +1066,16 @@ def race_blocks(path):
 def c15(ctx):
     th = ctx.thorough
     cfg = open(os.path.join(VERIF, "spec", "cfg", "UpdaterMC.cfg")).read()
+    cfg_norefine = cfg.replace("PROPERTIES FailKeeps RefinesInd", "PROPERTY FailKeeps")      # the refinement check triples the cost
     runs = []
     if th:
-        runs.append(ctx.tlc("UpdaterMC", cfg, workers=NCPU, name="full", timeout=3000, heap="12g"))
+        runs.append(ctx.tlc("UpdaterMC", cfg_norefine, workers=NCPU, name="full", timeout=3000, heap="12g"))
+        runs.append(ctx.tlc("UpdaterMC", cfg, workers=NCPU, name="one-name-refines", timeout=3000, heap="12g", consts={"NameSet": '{"a"}'}))
     else:
-        runs.append(ctx.tlc("UpdaterMC", cfg, workers=NCPU, name="one-name", timeout=1200, heap="8g", consts={"NameSet": '{"a"}'}))
-        runs.append(ctx.tlc("UpdaterMC", cfg, workers=NCPU, name="one-getter", timeout=1200, heap="8g", consts={"GetterSet": '{"t1"}'}))
+        runs.append(ctx.tlc("UpdaterMC", cfg_norefine, workers=NCPU, name="one-name", timeout=1200, heap="8g", consts={"NameSet": '{"a"}'}))
+        runs.append(ctx.tlc("UpdaterMC", cfg, workers=NCPU, name="one-getter-refines", timeout=1200, heap="8g", consts={"GetterSet": '{"t1"}'}))
+    # unbounded in installs and steps: the typed twin's invariant is inductive (Apalache); TLC above checks Updater refines the twin
+    apal = apalache_inductive(ctx, "UpdaterInd", "Init", "IndInit", "IndInv", cinit="CInit")
     for r in runs:
         ctx.tlc_must_pass(r, "Updater: WakeNotLost, ReturnFresh, NoSpuriousBuild, CloseOnce, AllClosed, FailKeeps over all interleavings")
     tot = {"accepted": 0, "events": 0, "histories": 0, "states": 0}
@@ -1103,6 +1107,7 @@ def c15(ctx):
     cov = {"states": sum(r.distinct for r in runs), "transitions": sum(r.generated for r in runs),
            "traces_validated_against_impl": tot["accepted"], "samples": samples, "trace_events_validated": tot["events"],
            "histories_recorded": tot["histories"], "gets": counters.get("gets", 0), "builder_invocations": counters.get("builds", 0),
+           "apalache_inductive_invariant": apal,
            "explanation": "Updater.tla splits NewUpdater (register / read / build) and Get (take u.mu + drain / read / build / close old / return) at the "
                           "code's critical sections and lets installs happen between any two of them; TLC checks WakeNotLost, ReturnFresh, "
                           "NoSpuriousBuild, CloseOnce, AllClosed and FailKeeps over all interleavings of 2 updaters, 1-2 concurrent Get callers, 1-2 names, "
@@ -1445,7 +1450,7 @@ def c18(ctx):
                                 "`setec put` is not exercised (no terminal)"]
 
 
-def apalache_inductive(ctx, module, init, indinit, inv, action_invs=()):
+def apalache_inductive(ctx, module, init, indinit, inv, action_invs=(), cinit=None):
     """Unbounded safety with Apalache: Init => Inv (length 0), Inv /\\ Next => Inv' (length 1 from an arbitrary state satisfying Inv),
     and action invariants from such a state."""
     if shutil.which("apalache-mc") is None:
@@ -1458,7 +1463,7 @@ def apalache_inductive(ctx, module, init, indinit, inv, action_invs=()):
     done = []
     for name, args in runs:
         try:
-            p = subprocess.run(["apalache-mc", "check"] + args + ["--out-dir=" + os.path.join(d, "out"), module + ".tla"], cwd=d, capture_output=True, text=True, timeout=900)
+            p = subprocess.run(["apalache-mc", "check"] + (["--cinit=" + cinit] if cinit else []) + args + ["--out-dir=" + os.path.join(d, "out"), module + ".tla"], cwd=d, capture_output=True, text=True, timeout=900)
         except subprocess.TimeoutExpired:
             raise ToolTrouble("apalache timed out on %s (%s)" % (module, name))
         if "EXITCODE: OK" not in p.stdout:
